@@ -19,6 +19,7 @@ type GenCfg struct {
 	BadCast        bool // exchange whose inputs cannot be cast to the declared schema
 	AfterCancel    bool // the client keeps writing inputs (and a second cancel) after its cancel batch
 	ZeroRows       bool // one exchange input has zero rows
+	NoHook         bool // some stream states come without a cancel hook
 	WriteAhead     bool
 	Levels         bool
 	InputMeta      bool
@@ -121,7 +122,7 @@ func GenOps(tp *simkern.Tape, c GenCfg) []*Op {
 			if m.Kind == "dynamic" {
 				op.StreamKind = []string{"producer", "exchange"}[tp.Draw(2)]
 			}
-			op.Script = hx.GenStreamScript(tp, nonce, op.StreamKind, hx.GenOpts{MaxTurns: c.MaxTurns, FailBias: c.FailBias, AllowMeta: c.EmitMeta, Pad: c.Pad})
+			op.Script = hx.GenStreamScript(tp, nonce, op.StreamKind, hx.GenOpts{MaxTurns: c.MaxTurns, FailBias: c.FailBias, AllowMeta: c.EmitMeta, Pad: c.Pad, NoHook: c.NoHook})
 			op.Script.Header = m.Header
 			if c.InitFail && tp.Bool(1, 6) {
 				hx.GenInitFailure(tp, op.Script)
